@@ -15,8 +15,8 @@
 (*   "retryok" the first request fails, the retry inside the same apply    *)
 (*             succeeds                                                    *)
 (*   "fail"    every request fails until the apply gives up                *)
-(* P is the property-level memory (Reloader.tla), obs the last apply's     *)
-(* observation.                                                            *)
+(* P is the property-level memory, A the algorithm summary (Reloader.tla), *)
+(* obs the last apply's observation.                                       *)
 (***************************************************************************)
 EXTENDS Reloader, TLC, Json, IOUtils, SequencesExt
 CONSTANTS Contents,      \* content ids (subset of {"p1","p2","e1","e2"})
@@ -34,10 +34,10 @@ VARIABLES cfg, dir, wat, env,                       \* inputs and environment
           outCfg, outDir,                           \* output files
           lastCfgHash, lastDirHash, lastWatHash,    \* hashes of the last successful reload
           lastDirFiles, force,                      \* output files of the last apply; forceReload
-          P, obs, left, fresh
-vars == <<cfg, dir, wat, env, outCfg, outDir, lastCfgHash, lastDirHash, lastWatHash, lastDirFiles, force, P, obs, left, fresh>>
+          P, A, obs, left, fresh
+vars == <<cfg, dir, wat, env, outCfg, outDir, lastCfgHash, lastDirHash, lastWatHash, lastDirFiles, force, P, A, obs, left, fresh>>
 inputVars == <<cfg, dir, wat, env>>
-reloaderVars == <<outCfg, outDir, lastCfgHash, lastDirHash, lastWatHash, lastDirFiles, force, P, obs>>
+reloaderVars == <<outCfg, outDir, lastCfgHash, lastDirHash, lastWatHash, lastDirFiles, force, P, A, obs>>
 
 Ins == [cfg |-> cfg,
         dir |-> SetToSeq({ [n |-> n, c |-> dir[n]] : n \in { m \in DirNames : dir[m] # NoFile } }),
@@ -50,7 +50,7 @@ Init == /\ cfg \in Contents /\ dir = [n \in DirNames |-> NoFile] /\ wat = [n \in
         /\ outCfg = NoOut /\ outDir = [n \in DirNames |-> NoOut]
         /\ lastCfgHash = "nil" /\ lastDirHash = [n \in DirNames |-> "nil"] /\ lastWatHash = [n \in WatNames |-> "nil"]
         /\ lastDirFiles = {"<nil>"} /\ force = FALSE
-        /\ P = PInit /\ obs = [calls |-> 0, oks |-> 0] /\ left = Budget /\ fresh = FALSE
+        /\ P = PInit /\ A = AInit /\ obs = [calls |-> 0, oks |-> 0] /\ left = Budget /\ fresh = FALSE
 
 (* ---- the environment of the reloader ---- *)
 EditCfg(c) == /\ left > 0 /\ c # cfg /\ cfg' = c /\ UNCHANGED <<dir, wat, env>>
@@ -95,6 +95,7 @@ Apply(outcome) ==
             /\ force' = FALSE
             /\ lastCfgHash' = cfgHash /\ lastDirHash' = dirHash /\ lastWatHash' = watHash
     /\ P' = PNext(P, Snapshot(Ins), env, obs'.calls, obs'.oks)
+    /\ A' = ANext(A, Snapshot(Ins), obs'.calls, obs'.oks)
     /\ fresh' = TRUE
     /\ UNCHANGED inputVars
 
@@ -110,6 +111,8 @@ OutputsFollowInputs == (fresh /\ (obs.oks >= 1 \/ obs.calls = 0)) => ObservedOut
 AppliesSatisfyProperty == [][fresh' => (LET o == [calls |-> obs'.calls, oks |-> obs'.oks, err |-> "",
                                                  outs |-> Outs', atok |-> Outs']
                                        IN ApplyClauses(P, Ins, env, o) = {})]_vars
+(* the summary used for model conformance in the trace spec agrees with the detailed model *)
+SummaryAgrees == [][fresh' => ((obs'.calls > 0) = ATrigger(A, Snapshot(Ins)))]_vars
 (* eventual form: once nothing changes any more and reloads succeed, the outputs equal the inputs, the *)
 (* reloaded content is the current content, and no further reload is requested                        *)
 Synced == /\ ObservedOut(Outs) = ExpectedOut(Ins, env)
